@@ -31,7 +31,7 @@ def analyse(ctx, prop, name, tr, summ, mism, mon, stats):
         if not m or m.group(2) != prop: continue
         ln = int(m.group(1))
         sig = re.search(r"signature=(\S+)", l)
-        ctx.monitor_fail.append({"what": l[:600], "signature": "envelope " + (("signature=" + sig.group(1)) if sig else "unsigned") + " " + m.group(3)[:200],
+        ctx.monitor_fail.append({"line": ln, "trace": tr, "what": l[:600], "signature": "envelope " + (("signature=" + sig.group(1)) if sig else "unsigned") + " " + m.group(3)[:200],
                                  "case": case_of(tr, ln, r"^new$")})
         if len(ctx.monitor_fail) > 40: break
     rel = []
@@ -39,7 +39,7 @@ def analyse(ctx, prop, name, tr, summ, mism, mon, stats):
         m = re.match(r"MISMATCH line (\d+) field=(\S+)", l)
         if m and (set(m.group(2).split(",")) & (fields | {"op", "shape"})):
             rel.append((int(m.group(1)), l))
-    if rel and not any(True for _ in ctx.monitor_fail):
+    if rel and not any(mf.get('line') in [ln for ln, _ in rel] for mf in ctx.monitor_fail if mf.get('trace') == tr):
         ln, l = rel[0]
         ctx.corr_broken.append("%s: model and SDK disagree on %s-relevant fields in %d operation(s); first: %s\ncase:\n%s"
                                % (name, prop, len(rel), l[:700], case_of(tr, ln, r"^new$")))
